@@ -682,6 +682,29 @@ static std::vector<Op<C>> alphabet(std::size_t cap)
                                    resync(w.P());
                                } });
             }
+        ops.push_back({ "insert(end,initializer_list2)", [](World<C>& w) {
+                           auto& m = w.P().m;
+                           int a = w.next_id++, b = w.next_id++;
+                           std::initializer_list<E> il = { E(a), E(b) };
+                           std::size_t n = m.ids.size();
+                           bool fits = n + 2 <= m.cap;
+                           if (call(w, "insert(end,initializer_list2)", fits ? Guard::must_succeed : Guard::must_raise,
+                                    [&] { w.P().v->insert(w.P().v->end(), il); }))
+                           {
+                               m.ids.push_back(a);
+                               m.ids.push_back(b);
+                           }
+                           else if (!w.abandoned)
+                           {
+                               std::vector<int> all = m.ids;
+                               all.push_back(a);
+                               all.push_back(b);
+                               resync(w.P());
+                               if (!(m.ids.size() >= n && m.ids.size() <= m.cap &&
+                                     std::equal(m.ids.begin(), m.ids.end(), all.begin())))
+                                   viol("C07", "failed-range-append-left-unrelated-contents", "insert(end,initializer_list)");
+                           }
+                       } });
         for (std::size_t L = 0; L <= cap + 1; ++L)
         {
             std::string nm = "push_back(range" + std::to_string(L) + ")";
@@ -790,7 +813,16 @@ static std::vector<Op<C>> alphabet(std::size_t cap)
                            w.abandoned = true;
                            return;
                        }
-                       w.P().m.cap = w.P().v->capacity();
+                       // ... except its capacity: it is fixed at construction, and the source of a move is
+                       // not being assigned to
+                       if (w.P().v->capacity() != w.P().m.cap)
+                       {
+                           viol("C06", "capacity-of-the-moved-from-container-changed",
+                                "move construction: " + std::to_string(w.P().m.cap) + " -> " +
+                                    std::to_string(w.P().v->capacity()));
+                           w.abandoned = true;
+                           return;
+                       }
                        if (w.P().v->size() > 0 && w.P().v->data() == nullptr)
                        {
                            viol("C06", "moved-from-container-has-size-but-no-storage", "");
@@ -811,10 +843,29 @@ static std::vector<Op<C>> alphabet(std::size_t cap)
                            w.abandoned = true;
                            return;
                        }
-                       w.P().m.cap = w.P().v->capacity();
+                       if (w.P().v->capacity() != w.P().m.cap)
+                       {
+                           viol("C06", "capacity-of-the-moved-from-container-changed",
+                                "move assignment: " + std::to_string(w.P().m.cap) + " -> " +
+                                    std::to_string(w.P().v->capacity()));
+                           w.abandoned = true;
+                           return;
+                       }
                        if (w.P().v->size() > 0 && w.P().v->data() == nullptr)
                        {
                            viol("C06", "moved-from-container-has-size-but-no-storage", "");
+                           w.abandoned = true;
+                           return;
+                       }
+                       resync(w.P());
+                   } });
+    ops.push_back({ "P=move(P) (self move-assign)", [](World<C>& w) {
+                       FV& self = *w.P().v;
+                       *w.P().v = std::move(self);
+                       // valid but unspecified contents; the capacity stays
+                       if (w.P().v->size() > w.P().v->capacity() || w.P().v->capacity() != w.P().m.cap)
+                       {
+                           viol("C06", "self-move-assignment-changed-capacity-or-broke-size", "");
                            w.abandoned = true;
                            return;
                        }
